@@ -78,6 +78,14 @@ func genPassword(t *rapid.T, label string) c08pw {
 			map[string]any{"type": "pbkdf2", "hash": "sha-256", "salt": "00", "iterations": 1},
 			map[string]any{"type": "rot13", "key": "frperg"},
 			map[string]any{"type": "bcrypt"},
+			// a stored hash that is not a hash: truncated, wrong prefix, impossible cost, the plain text itself, nothing
+			map[string]any{"type": "bcrypt", "key": "$2a$04$tooshort"},
+			map[string]any{"type": "bcrypt", "key": "$9z$04$abcdefghijklmnopqrstuuQmXQ1o5uY3mWmXvCz6c8dUjWzYp2wZe"},
+			map[string]any{"type": "bcrypt", "key": "$2a$99$abcdefghijklmnopqrstuuQmXQ1o5uY3mWmXvCz6c8dUjWzYp2wZe"},
+			map[string]any{"type": "bcrypt", "key": "secret"},
+			map[string]any{"type": "bcrypt", "key": ""},
+			map[string]any{"type": "pbkdf2", "hash": "sha-256", "key": "00", "salt": "zz", "iterations": 1},
+			map[string]any{"type": "pbkdf2", "hash": "sha-256", "key": "", "salt": "", "iterations": 0},
 		}
 		return c08pw{json: rapid.SampledFrom(bad).Draw(t, label+"bad"), broken: true}
 	}
@@ -352,4 +360,22 @@ func strp(s *string) string {
 		return "<nil>"
 	}
 	return fmt.Sprintf("%q", *s)
+}
+
+// Frozen regression input (fixed in cba4ba4): a PBKDF2 record whose key is empty accepted every password.
+func TestVerif_C08_Regress_EmptyPbkdf2Key(t *testing.T) {
+	for _, rec := range []string{
+		`{"type":"pbkdf2","hash":"sha-256","key":"","salt":"","iterations":0}`,
+		`{"type":"pbkdf2","hash":"sha-256","key":"","salt":"00ff","iterations":4096}`,
+	} {
+		var p Password
+		if err := json.Unmarshal([]byte(rec), &p); err != nil {
+			t.Fatalf("VERIF-HARNESS-ERROR: %v", err)
+		}
+		for _, pw := range []string{"", "a", "anything at all"} {
+			if ok, _ := p.Match(pw); ok {
+				t.Fatalf("C08: the password record %s verifies for the password %q (and for every other one)", rec, pw)
+			}
+		}
+	}
 }
